@@ -255,10 +255,12 @@ def judge_runs(chk, runs, tag, batch=150000):
         n_ev = 0
         first = i
         linemap = []
+        start = {}
         with open(path, "w") as f:
             while i < len(runs) and (n_ev < batch or i == first):
                 r = runs[i]
                 evs = [dict(r["reset"], run=i)] + r["events"] + [r["end"]]
+                start[i] = len(linemap) + 1      # 1-based line of the reset event
                 for e in evs:
                     f.write(json.dumps({k: v for k, v in e.items() if k in JUDGE_KEEP}, separators=(",", ":")) + "\n")
                     linemap.append(i)
@@ -273,6 +275,7 @@ def judge_runs(chk, runs, tag, batch=150000):
         chk.add_tlc(res)
         j = j[0]
         for b in j["bad"]:
+            b["index"] = b["line"] - start[b["run"]] - 1   # index into runs[run]["events"] (len = the end event)
             verdicts[b["run"]] = b
         if j["nviol"] > len(j["bad"]):
             chk.extra["violating_runs_not_listed"] = chk.extra.get("violating_runs_not_listed", 0) + j["nviol"] - len(j["bad"])
@@ -287,12 +290,14 @@ def report_violations(chk, lock, runs, verdicts, source):
         r = runs[ri]
         progs = r["reset"]["progs"]
         t = b.get("t", 0)
-        fn = ""
-        for e in r["events"]:
-            if e["ev"] == "call" and e["t"] == t:
-                fn = e["fn"]
+        upto = r["events"][:b["index"] + 1]
+        cur = {}          # thread -> call it is inside / acquired its guard with
+        for e in upto:
+            if e["ev"] == "call" and e["fn"] != "unlock":
+                cur[e["t"]] = e["fn"]
+        fn = cur.get(t, "")
         if b["code"] in ("lost_wakeup", "deadlock_with_holder"):
-            fn = "+".join(sorted({e["fn"] for e in r["events"] if e["ev"] == "call" and e["t"] in r["end"]["blocked"]}))
+            fn = "+".join(sorted({cur.get(x, "?") for x in r["end"]["blocked"]}))
         sig = {"lock": lock, "code": b["code"], "op": fn}
         what = "%s %s: %s (threads=%d progs=%s, source=%s, %d events)" % (
             lock, b["code"], describe(b["code"], fn, r), len(progs), json.dumps(progs, separators=(",", ":")), source, len(r["events"]))
@@ -454,3 +459,207 @@ def shortest_path_to(g, pred):
             if best is None or len(p) < len(best):
                 best = p
     return best
+
+
+# ---------------------------------------------------------------------------------------------
+# the check itself, shared by C01 and C02
+# ---------------------------------------------------------------------------------------------
+class LockCheck:
+    """Parameters a property supplies:
+    pid, lock ("mutex"/"rwlock"), module prefix ("Mutex"/"RwLock"), binding, PROGS (name -> programs),
+    DEFAULT_ORD, INVARIANTS, cfg_constants(name,n,progs,budgets,ord_name) lines, bad_state(st) predicate,
+    nontrivial(run) predicate, tiers: tours / configs / explore specs."""
+
+    def __init__(self, pid, lock, prefix, bind, progs, default_ord, invariants, budget_names, nontrivial, bad_state, rule, assumptions):
+        self.pid, self.lock, self.prefix, self.bind = pid, lock, prefix, bind
+        self.PROGS, self.DEFAULT_ORD, self.INVARIANTS = progs, default_ord, invariants
+        self.budget_names = budget_names
+        self.nontrivial_run, self.bad_state = nontrivial, bad_state
+        self.rule, self.assumptions = rule, assumptions
+
+    # -- configuration files
+    def write_cfg(self, chk, name, n, progs, budgets, ord_name="OrdCode", invariants=True, liveness=True):
+        path = os.path.join(chk.work, "%s_%s.cfg" % (self.prefix, name))
+        with open(path, "w") as f:
+            f.write("CONSTANTS\n  N = %d\n  Progs <- %s\n  Ord <- %s\n" % (n, progs, ord_name))
+            for k, v in zip(self.budget_names, budgets):
+                f.write("  %s = %d\n" % (k, v))
+            f.write("SPECIFICATION Spec\n")
+            if invariants:
+                f.write("INVARIANTS " + self.INVARIANTS + "\n")
+            if liveness:
+                f.write("PROPERTY Termination\n")
+            f.write("CHECK_DEADLOCK FALSE\n")
+        return path
+
+    def write_obs_module(self, chk, ords):
+        exc = []
+        for site, seen in sorted(ords.items()):
+            o = sorted(seen)[0]
+            exc.append('!.%s = <<"%s", "%s">>' % (site, o[0], o[1]))
+        body = "OrdCode" if not exc else "[OrdCode EXCEPT %s]" % ", ".join(exc)
+        with open(os.path.join(chk.work, "%s_Obs.tla" % self.prefix), "w") as f:
+            f.write("---- MODULE %s_Obs ----\nEXTENDS %s_MC\nOrdObs == %s\n====\n" % (self.prefix, self.prefix, body))
+
+    def record_config(self, chk, name, n, progs, budgets, res, ord_name):
+        chk.extra.setdefault("model_configs", []).append({
+            "config": name, "threads": n, "programs": self.PROGS.get(progs, progs), "budgets": dict(zip(self.budget_names, budgets)),
+            "distinct_states": res.distinct, "generated": res.generated, "wall_s": round(res.wall, 1), "orderings": ord_name, "passed": res.ok})
+
+    def model_check(self, chk, name, n, progs, budgets, observed=False, workers=8, timeout=1500, must=True):
+        ord_name = "OrdObs" if observed else "OrdCode"
+        cfg = self.write_cfg(chk, name, n, progs, budgets, ord_name)
+        module, cwd = ("%s_Obs.tla" % self.prefix, chk.work) if observed else ("%s_MC.tla" % self.prefix, core.SPECS)
+        try:
+            res = core.run_tlc(module, cfg, cwd=cwd, workers=workers, timeout=timeout, xmx="10g",
+                               env={"JAVA_TOOL_OPTIONS": "-XX:ParallelGCThreads=4"})
+        except core.ToolError as e:
+            if "timed out" in str(e) and not must:
+                return None
+            raise
+        if must:
+            core.tlc_must_pass(res, "%s %s" % (self.prefix, name))
+        chk.add_tlc(res)
+        core.log("TLC %s %s: %d generated, %d distinct, %.1fs, %s" % (self.prefix, name, res.generated, res.distinct, res.wall,
+                                                                      "ok" if res.ok else "FAILED " + ",".join(res.invariant_violated)))
+        self.record_config(chk, name, n, progs, budgets, res, ord_name)
+        return res
+
+    def explore(self, chk, bindir, spec, tag):
+        path = os.path.join(chk.work, "explore_%s.json" % tag)
+        with open(path, "w") as f:
+            json.dump(spec, f)
+        return run_sched(bindir, "random" if "runs" in spec else "explore", path, timeout=3000)
+
+    def run(self, tier, tours, configs, configs_if_differs, specs, tour_budget=None):
+        chk = core.Check(self.pid, tier, "model_checking")
+        bindir = core.cargo_build(bins=["sched"])
+        all_ords, drift, tour_stats = {}, [], []
+        self.nontrivial = 0
+
+        pending = []      # (runs, source): judged together at the end (one JVM start per 150k events)
+
+        def judge_and_report(runs, tag, source):
+            for r in runs:
+                r["source"] = source
+            pending.extend(runs)
+            chk.evaluations += len(runs)
+            self.nontrivial += sum(1 for r in runs if self.nontrivial_run(r))
+
+        def judge_pending():
+            t0 = time.time()
+            v = judge_runs(chk, pending, "all")
+            by_source = {}
+            for ri, b in v.items():
+                by_source.setdefault(pending[ri]["source"], {})[ri] = b
+            for source, vs in by_source.items():
+                report_violations(chk, self.lock, pending, vs, source)
+            core.log("judged %d executions (%d events) with SyncTrace in %.1fs: %d rejected" % (
+                len(pending), sum(len(r["events"]) + 2 for r in pending), time.time() - t0, len(v)))
+
+        # 1. exhaustive model checking + dumped state graph of the small configurations; B1 tour
+        for name, n, progs, budgets in tours:
+            cfg = self.write_cfg(chk, name, n, progs, budgets)
+            res, g = dump_graph(chk, "%s_MC.tla" % self.prefix, cfg, "%s_%s" % (self.lock, name))
+            chk.add_tlc(res)
+            self.record_config(chk, name, n, progs, budgets, res, "OrdCode")
+            mp, ms = tour_budget or (None, None)
+            paths, covered, total = transition_tour(g, max_paths=mp, max_steps=ms)
+            runs, divs, ords, agreed = replay_paths(chk, bindir, self.bind, g, paths, self.PROGS[progs], "%s_%s" % (self.lock, name))
+            for k, v in ords.items():
+                all_ords.setdefault(k, set()).update(v)
+            steps = sum(map(len, paths))
+            confirmed = set()
+            bad_runs = {d["run"]: d["k"] for d in divs}
+            for i, p in enumerate(paths):
+                confirmed.update(p[:bad_runs.get(i, len(p))])
+            tour_stats.append({"config": name, "states": len(g.label), "edges": len(g.edges), "tour_paths": len(paths), "tour_steps": steps,
+                               "edges_in_tour": covered, "edges_confirmed_on_real_code": len(confirmed),
+                               "edge_coverage": round(len(confirmed) / max(1, len(g.edges)), 4), "divergent_paths": len(divs)})
+            core.log("tour %s: %d states %d edges, %d paths %d steps, confirmed %d edges, %d divergent" % (
+                name, len(g.label), len(g.edges), len(paths), steps, len(confirmed), len(divs)))
+            for d in divs[:3]:
+                drift.append({"config": name, **{k: d[k] for k in ("run", "k", "edge", "why")}})
+            judge_and_report(runs, "tour_" + name, "B1 tour of %s_MC %s" % (self.prefix, name))
+            if len(chk.samples) < 2 and runs:
+                chk.sample({"source": "tour " + name, "progs": self.PROGS[progs], "sched": runs[len(runs) // 2]["end"]["sched"]})
+
+        # 2. orderings actually passed by the code -> constants of the model
+        observed = {k: sorted(v) for k, v in all_ords.items()}
+        differs = {k: v for k, v in observed.items() if set(v) != {tuple(self.DEFAULT_ORD[k])}}
+        chk.extra["orderings_observed"] = {k: ["/".join(o) for o in v] for k, v in observed.items()}
+        chk.extra["orderings_differ_from_spec_default"] = {k: ["/".join(o) for o in v] for k, v in differs.items()}
+        chk.extra["sites_not_observed"] = sorted(set(self.DEFAULT_ORD) - set(observed))
+        if differs:
+            self.write_obs_module(chk, all_ords)
+            core.log("orderings differ from the specification's defaults: %s" % differs)
+
+        # 3. the remaining exhaustive configurations, with the observed orderings
+        replayed_cex = False
+        for name, n, progs, budgets in (configs_if_differs if differs else []) + configs:
+            res = self.model_check(chk, name + ("obs" if differs else ""), n, progs, budgets, observed=bool(differs), must=not differs)
+            if res is not None and not res.ok and differs and not replayed_cex and res.distinct < 200000:
+                # a counterexample of the MODEL under the code's orderings is never a verdict: find a
+                # shortest path to a bad model state and replay it into the real code, B2 decides
+                cfg = self.write_cfg(chk, name + "obs_graph", n, progs, budgets, "OrdObs", invariants=False, liveness=False)
+                _, g = dump_graph(chk, "%s_Obs.tla" % self.prefix, cfg, "%s_obs_%s" % (self.lock, name), cwd=chk.work, check=True)
+                p = shortest_path_to(g, lambda nid: self.bad_state(g.state(nid)))
+                if p is None:
+                    core.log("model fails under observed orderings but no bad state found in the dumped graph")
+                    continue
+                runs, divs, _, _ = replay_paths(chk, bindir, self.bind, g, [p], self.PROGS[progs], "%s_cex_%s" % (self.lock, name))
+                chk.extra.setdefault("model_counterexamples_replayed", []).append(
+                    {"config": name, "length": len(p), "actions": [g.edges[e][2] for e in p], "diverged": bool(divs)})
+                judge_and_report(runs, "cex_" + name, "replay of TLC counterexample (%s_MC %s with the observed orderings)" % (self.prefix, name))
+                replayed_cex = True
+
+        # 4. systematic exploration of the real code itself (stateless DFS, preemption bound) + random
+        explored = []
+        for tag, spec in specs:
+            spec = dict(spec, seed=chk.seed, kind=self.lock)
+            spec.setdefault("max_secs", 12 if tier == "quick" else 150)
+            runs, info = self.explore(chk, bindir, spec, tag)
+            explored.append({"tag": tag, "progs": spec["progs"], "preemption_bound": spec.get("preempt"), "runs": len(runs),
+                             "complete_within_bound": info.get("complete"),
+                             "budgets": {k: spec.get(k, 0) for k in ("spur", "eintr", "weak")}})
+            core.log("explore %s: %d runs, complete=%s" % (tag, len(runs), info.get("complete")))
+            judge_and_report(runs, tag, "exploration %s" % tag)
+            if runs:
+                chk.sample({"source": tag, "progs": spec["progs"], "sched": runs[-1]["end"]["sched"]})
+
+        judge_pending()
+        chk.nontrivial = self.nontrivial
+        chk.rule = self.rule
+        chk.extra["transition_tour"] = tour_stats
+        chk.extra["model_conformance"] = not drift
+        if drift:
+            chk.extra["model_drift"] = drift
+        chk.extra["exploration"] = explored
+        chk.exhaustive = False
+        chk.assumptions = self.assumptions
+        return chk.finish()
+
+    def replay(self, path):
+        rp = json.load(open(path))["replay"]
+        chk = core.Check(self.pid, "replay", "model_checking")
+        bindir = core.cargo_build(bins=["sched"])
+        plans = os.path.join(chk.work, "replay_plan.ndjson")
+        with open(plans, "w") as f:
+            f.write(json.dumps({"run": 0, "kind": rp["kind"], "progs": rp["progs"], "sched": rp["sched"], "snap": False}) + "\n")
+        runs, _ = run_sched(bindir, "replay", plans)
+        v = judge_runs(chk, runs, "replay")
+        for e in runs[0]["events"]:
+            print(json.dumps(e, separators=(",", ":")))
+        print(json.dumps(runs[0]["end"], separators=(",", ":")))
+        if v:
+            print("REPRODUCED: %s at event %d (recorded: %s)" % (v[0]["code"], v[0]["index"], rp.get("code")))
+            return 1
+        print("not reproduced (recorded: %s): the schedule is accepted by SyncTrace on the current tree" % rp.get("code"))
+        return 0
+
+
+COMMON_ASSUMPTIONS = [
+    "atomic operations are sequentially consistent in model and instrument (one thread runs at a time); memory orderings are judged through happens-before for the guarded data only (Machine.tla)",
+    "FUTEX_WAIT/WAKE are simulated by the scheduler (wait = compare-and-park or EAGAIN, wake(n) wakes exactly min(n, parked) waiters of the scheduler's choice, spurious returns and EINTR on demand); rusl::futex itself is exercised only by the free-running stress part",
+    "spin loops are collapsed: the identical loads of one spin form one event, a spinning thread observes the word once per scheduling decision",
+]
